@@ -90,7 +90,10 @@ def dataset_spec(draw, kind=None, n_obs=None, shape=None):
         tv = draw(st.lists(st.integers(-8, 24), min_size=n_time, max_size=n_time, unique=True))
         if draw(st.booleans()):
             tv = sorted(tv)
-        time = {'time': {'values': [t / 4.0 for t in tv],
+        # time stamps may be large compared with their spacing (milliseconds two minutes into a
+        # recording, unix times): exactly representable, so bin means stay exact
+        t0 = draw(st.sampled_from([0.0, 0.0, 0.0, 120000.0, 2.0 ** 31]))
+        time = {'time': {'values': [t0 + t / 4.0 for t in tv],
                          'container': draw(st.sampled_from(['array', 'array', 'array', 'list']))}}
         if draw(st.integers(0, 3)) == 0:
             time['tgrp'] = draw(labelled(n_time, 2, kinds=('str',)))
